@@ -8,6 +8,7 @@
   for the authenticated caller's own identifier and no other.
 -/
 import Dirk.Model.Dkg
+import Dirk.Props.KernelsEq
 
 namespace Dirk.Dkg
 
@@ -46,5 +47,12 @@ theorem C16_share_owner (s : Session) (caller k : Nat) (h : replyShareFor s call
 example : (onPrepare { insts := [{ id := 1 }], peers := [1, 2], timeout := 10 } 1 2 "DW/a" 2 [1, 2]).2 = .ok := by decide
 example : (onPrepare { insts := [{ id := 1 }], peers := [1, 2], timeout := 10 } 1 7 "DW/a" 2 [1, 2]).2 = .unknownSender := by
   decide
+
+/-- **tie by translation.** `senderId` (0 = not a peer) is the loop translated on every run from the Go source of
+    `senderID` (handlers/receiver/helpers.go): the id of the configured peer whose name EQUALS the authenticated client
+    name exactly, whatever the map iteration order, for any injective naming of the peers. -/
+theorem C16_kernel_is_source (c : Cluster) (name : Nat → String) (hinj : ∀ a b, name a = name b → a = b) (caller : Nat) :
+    senderId c caller = Dirk.Gen.senderIdGen (c.peers.map (fun i => (i, name i))) (name caller) :=
+  Dirk.senderId_eq_gen c name hinj caller
 
 end Dirk.Dkg
